@@ -5,6 +5,7 @@ package c11
 
 import (
 	"bytes"
+	"io"
 	"sort"
 
 	"golang.org/x/crypto/sha3"
@@ -13,7 +14,9 @@ import (
 func kec(b []byte) []byte {
 	d := sha3.NewLegacyKeccak256()
 	d.Write(b)
-	return d.Sum(nil)
+	out := make([]byte, 32)
+	d.(io.Reader).Read(out) // squeeze without cloning the sponge (same digest as Sum)
+	return out
 }
 
 // ---- RLP (appendix B) ----
